@@ -183,8 +183,10 @@ class Engine:
         self.pcset[i] = pol
 
     def add(self, c):
+        # any constraint that did not go through branch_char may cut a
+        # character's domain: from now on ask the solver for those chars
         vs = self._vars(c)
-        if len(vs) > 1:
+        if vs:
             self.entangled |= vs
         self.pc.append(c)
         self._note(c)
